@@ -688,9 +688,18 @@ func handleRename(params internal.HandlerFuncParams) ([]byte, error) {
 		return []byte("+OK\r\n"), nil
 	}
 
+	// The value moves together with its time to live: the new key takes the old key's deadline, or none.
+	expireAt := params.GetExpiry(params.Context, oldKey)
+	newKeyExpireAt := params.GetExpiry(params.Context, newKey)
+
 	// Set the new key with the old value
 	if err := params.SetValues(params.Context, map[string]interface{}{newKey: oldValue}); err != nil {
 		return nil, err
+	}
+
+	// SetValues keeps the deadline of an entry it overwrites (and gives none to a new entry).
+	if !expireAt.Equal(newKeyExpireAt) {
+		params.SetExpiry(params.Context, newKey, expireAt, false)
 	}
 
 	// Delete the old key
